@@ -281,18 +281,6 @@ Proof.
 Qed.
 
 (* ---- a witness is not in the exterior ---- *)
-Lemma polys_of_map : forall T g, polys_of (map_geom T g) = map (map_poly T) (polys_of g).
-Proof.
-  intros T g. induction g using geom_ind'; cbn [map_geom polys_of map]; try reflexivity.
-  induction gs as [|h gs IH]; [reflexivity|]. inversion H as [|? ? Hh Hgs]; subst.
-  cbn [map flat_map]. rewrite Hh, (IH Hgs), map_app. reflexivity.
-Qed.
-Lemma lines_of_map : forall T g, lines_of (map_geom T g) = map (map T) (lines_of g).
-Proof.
-  intros T g. induction g using geom_ind'; cbn [map_geom lines_of map]; try reflexivity.
-  induction gs as [|h gs IH]; [reflexivity|]. inversion H as [|? ? Hh Hgs]; subst.
-  cbn [map flat_map]. rewrite Hh, (IH Hgs), map_app. reflexivity.
-Qed.
 Lemma loc_dim_poly_witness : forall rule g p a r, In a (polys_of g) -> In r (poly_rings a) -> on_path p r = true ->
   fst (loc_dim rule g p) <> Exterior.
 Proof.
@@ -332,4 +320,87 @@ Qed.
 Theorem violation_on_geometry : forall flag ru g q, In q (rule_set flag ru g) -> loc_h g q <> Exterior.
 Proof.
   intros flag ru g q H. destruct (rule_set_in _ _ _ _ H) as [v [Hv Hq]]. apply witness_loc. apply (vsets_witness flag g v q Hv Hq).
+Qed.
+
+(* ---- the same for the non-simple locations ---- *)
+Lemma seg_int_on : forall a b c d,
+  match seg_int a b c d with
+  | SNone => True
+  | SProper q => hon_seg q a b
+  | STouch p => on_seg p a b = true
+  | SOverlap p q => on_seg p a b = true /\ on_seg q a b = true
+  end.
+Proof.
+  intros a b c d. destruct (seg_int a b c d) as [|q|p|p q] eqn:E; [exact I | | |].
+  - unfold seg_int in E.
+    destruct (opposite (orient a b c) (orient a b d) && opposite (orient c d a) (orient c d b)) eqn:Eo.
+    + inversion E; subst. apply proper_pt_on. apply andb_true_iff in Eo. apply Eo.
+    + destruct (nodup_pts _) as [|x [|y l]]; discriminate.
+  - apply seg_int_touch in E. assert (Hin : In p (nodup_pts (cand a b c d))) by (rewrite E; left; reflexivity).
+    apply (proj1 (in_nodup_pts _ _)) in Hin. apply in_cand in Hin. apply Hin.
+  - apply seg_int_overlap in E. destruct E as [Hp Hq]. apply in_cand in Hp, Hq. split; [apply Hp | apply Hq].
+Qed.
+Lemma index_seg_in : forall (l : seq) i s, In (i, s) (index_from 0 (segs l)) -> In s (segs l).
+Proof.
+  intros l i s H. destruct (in_index_from _ _ _ _ s H) as [_ [Hl Hn]]. rewrite <- Hn. apply nth_In. cbn [Nat.add] in Hl. lia.
+Qed.
+Lemma line_nonsimple_on : forall l q, In q (line_nonsimple_pts l) -> hon q l.
+Proof.
+  intros l q H. unfold line_nonsimple_pts in H. cbv zeta in H. apply in_flat_map in H.
+  destruct H as [[[i s] [j t]] [Hin Hq]]. cbn [fst snd] in Hq. apply in_pairs in Hin. destruct Hin as [Hs _].
+  apply index_seg_in in Hs. apply hon_dedup.
+  pose proof (seg_int_on (fst s) (snd s) (fst t) (snd t)) as Hon.
+  destruct (seg_int (fst s) (snd s) (fst t) (snd t)) as [|q'|p|p p'].
+  - destruct Hq.
+  - destruct Hq as [<- | []]. apply (hon_of_seg _ _ s); assumption.
+  - destruct (Nat.eqb j (S i)); [destruct Hq|]. destruct (_ && _); [destruct Hq|]. destruct Hq as [<- | []].
+    apply (hon_of_seg _ _ s); [exact Hs | apply hon_seg_hp; exact Hon].
+  - destruct Hon as [H1 H2]. destruct Hq as [<- | [<- | []]]; apply (hon_of_seg _ _ s); try exact Hs; apply hon_seg_hp; assumption.
+Qed.
+Lemma lines_cross_nonsimple_on : forall l u q, In q (lines_cross_nonsimple_pts l u) -> hon q l.
+Proof.
+  intros l u q H. unfold lines_cross_nonsimple_pts in H. cbv zeta in H. apply in_flat_map in H. destruct H as [e [He Hq]].
+  apply hon_dedup. pose proof (cross_events_on _ _ _ He) as Hon. destruct e as [q'|p].
+  - destruct Hq as [<- | []]. exact Hon.
+  - destruct (_ && _); [destruct Hq|]. destruct Hq as [<- | []]. exact Hon.
+Qed.
+Definition witness_pt (g : geom) (q : hpt) : Prop := witness g q \/ exists p, In p (points_of g) /\ q = hp p.
+Lemma in_dup_pts : forall p l, In p (dup_pts l) -> In p l.
+Proof.
+  intros p l. induction l as [|a l IH]; intros H; [destruct H|]. cbn [dup_pts] in H. destruct (mem_pt a l).
+  - destruct H as [<- | H]; [left; reflexivity | right; apply IH; exact H].
+  - right. apply IH. exact H.
+Qed.
+Lemma nonsimple_witness : forall g q, In q (nonsimple_pts g) -> witness_pt g q.
+Proof.
+  intros g. induction g using geom_ind'; intros q Hq; cbn [nonsimple_pts] in Hq.
+  - destruct Hq.
+  - left. right. exists l. split; [left; reflexivity | apply line_nonsimple_on; exact Hq].
+  - left. right. exists l. split; [left; reflexivity | apply line_nonsimple_on; exact Hq].
+  - left. left. apply in_flat_map in Hq. destruct Hq as [r [Hr Hq]]. exists (s, hs), r.
+    split; [left; reflexivity|]. split; [exact Hr | apply line_nonsimple_on; exact Hq].
+  - right. apply in_map_iff in Hq. destruct Hq as [p [<- Hp]]. exists p. split; [|reflexivity]. apply in_dup_pts in Hp. exact Hp.
+  - left. right. unfold lines_nonsimple_pts in Hq. apply in_flat_map in Hq. destruct Hq as [l [Hl Hq]]. exists l. split; [exact Hl|].
+    apply in_app_or in Hq. destruct Hq as [Hq | Hq]; [apply line_nonsimple_on; exact Hq|].
+    apply in_app_or in Hq. destruct Hq as [Hq | Hq].
+    + apply in_flat_map in Hq. destruct Hq as [u [_ Hq]]. apply (lines_cross_nonsimple_on _ _ _ Hq).
+    + destruct (_ && _); [|destruct Hq]. apply in_map_iff in Hq. destruct Hq as [p [<- Hp]]. apply hon_vertex. exact Hp.
+  - left. left. apply in_flat_map in Hq. destruct Hq as [a [Ha Hq]]. apply in_flat_map in Hq. destruct Hq as [r [Hr Hq]].
+    exists a, r. split; [exact Ha|]. split; [exact Hr | apply line_nonsimple_on; exact Hq].
+  - apply in_flat_map in Hq. destruct Hq as [h [Hh Hq]]. rewrite Forall_forall in H. specialize (H h Hh q Hq).
+    destruct H as [[[a [r [Ha Hr]]] | [l [Hl Hon]]] | [p [Hp ->]]].
+    + left. left. exists a, r. split; [|exact Hr]. cbn [polys_of]. apply in_flat_map. exists h. split; assumption.
+    + left. right. exists l. split; [|exact Hon]. cbn [lines_of]. apply in_flat_map. exists h. split; assumption.
+    + right. exists p. split; [|reflexivity]. cbn [points_of]. apply in_flat_map. exists h. split; assumption.
+Qed.
+Theorem nonsimple_on_geometry : forall g q, In q (nonsimple_pts g) -> loc_h g q <> Exterior.
+Proof.
+  intros g q H. destruct (nonsimple_witness g q H) as [W | [p [Hp ->]]]; [apply witness_loc; exact W|].
+  destruct p as [x y]. unfold loc_h, hp, loc, loc_rule, loc_dim. cbn [fst snd].
+  destruct (existsb _ (polys_of _)); [discriminate|]. destruct (existsb _ (polys_of _)); [discriminate|].
+  destruct (loc_lines _ _ _); try discriminate.
+  assert (E : existsb (pt_eqb (x, y)) (points_of (map_geom (scale_pt 1) g)) = true).
+  { apply existsb_exists. exists (x, y). split; [|apply pt_eqb_refl]. rewrite points_of_map.
+    rewrite (map_ext _ (fun a => a)) by apply scale_pt_1. rewrite map_id. exact Hp. }
+  rewrite E. discriminate.
 Qed.
